@@ -400,9 +400,59 @@ func checkIndex(p *Prog, l *Ledger, bp *BoundsProver, lem *lemmas, fk string, mk
 			report("C07/P3-index", key, p.InstrPos(in), why2)
 		}
 		return
+	} else if ok3, why3 := pathSensitiveIndexProof(p, in); ok3 {
+		l.Discharge("C07/P3-index", key, p.InstrPos(in), why3, true)
 	} else {
-		report("C07/P3-index", key, p.InstrPos(in), "index not proven in range: "+why)
+		report("C07/P3-index", key, p.InstrPos(in), "index not proven in range: "+why+" ("+why3+")")
 	}
+}
+
+// pathSensitiveIndexProof: second prover for index sites whose guards are not dominating branch conditions
+// of the same function (e.g. the bounds tests live in an extracted helper): every abstract path of the
+// explored evaluator/built-in models that reaches the index instruction must carry the facts
+// (idx < 0)=false and (idx < len(base))=true for the very idx and base used.
+func pathSensitiveIndexProof(p *Prog, in ssa.Instruction) (bool, string) {
+	pos := p.InstrPos(in)
+	fn := in.Parent()
+	var graphs []*Graph
+	if fnPkgName(fn) == "interpreter" {
+		cs := getClauses(p)
+		if len(cs.Probs) > 0 {
+			return false, "evaluator not explorable"
+		}
+		for _, m := range cs.all() {
+			graphs = append(graphs, m.G)
+		}
+		scratch := NewLedger("tmp", "quick", 0, "")
+		for _, m := range exploreNatives(p, scratch) {
+			graphs = append(graphs, m.G)
+		}
+	}
+	if len(graphs) == 0 {
+		return false, "no path-sensitive model covers this function"
+	}
+	n := 0
+	for _, g := range graphs {
+		for _, es := range g.Out {
+			for _, e := range es {
+				if e.Ev == nil || e.Ev.Op != "index" || e.Ev.Pos != pos {
+					continue
+				}
+				n++
+				base, idx := e.Ev.Args[0], e.Ev.Args[1]
+				facts := ";" + e.Ev.KV["facts"] + ";"
+				lower := strings.Contains(facts, ";("+idx+" < 0)=false;")
+				upper := strings.Contains(facts, ";("+idx+" < len("+base+"))=true;")
+				if !lower || !upper {
+					return false, fmt.Sprintf("a path reaches %s[%s] without having established 0 <= index < len (facts: %s)", base, idx, e.Ev.KV["facts"])
+				}
+			}
+		}
+	}
+	if n == 0 {
+		return false, "the index instruction is not reached by any explored path"
+	}
+	return true, fmt.Sprintf("path-sensitive proof: all %d explored path states reaching this instruction carry (index < 0)=false and (index < len(array))=true for the very operands used", n)
 }
 
 // mapNonNil: the map operand of a store is a fresh make, the Values field of an Environment (made by
@@ -763,9 +813,9 @@ func structuralDescent(p *Prog, caller *ssa.Function, site ssa.CallInstruction, 
 	} else if callee.Signature.Recv() != nil && len(args) > 0 && pkgName(callee) != "interpreter" {
 		measure = args[0]
 	} else {
-		// first parameter whose type is an ast node interface
+		// first parameter whose type is (or is a slice/pointer of) an ast node type
 		for i, prm := range callee.Params {
-			if nt := namedOf(prm.Type()); nt != nil && nt.Obj().Pkg() != nil && nt.Obj().Pkg().Name() == "ast" && i < len(args) {
+			if mentionsAST(prm.Type()) && i < len(args) {
 				measure = args[i]
 				break
 			}
@@ -962,4 +1012,24 @@ func storedTypes(p *Prog, u *Universe, key string, seen map[string]bool) (map[st
 		return nil, false
 	}
 	return out, true
+}
+
+
+func mentionsAST(t types.Type) bool {
+	for depth := 0; depth < 4; depth++ {
+		if nt, ok := t.(*types.Named); ok {
+			return nt.Obj().Pkg() != nil && nt.Obj().Pkg().Name() == "ast"
+		}
+		switch u := t.(type) {
+		case *types.Pointer:
+			t = u.Elem()
+		case *types.Slice:
+			t = u.Elem()
+		case *types.Map:
+			t = u.Elem()
+		default:
+			return false
+		}
+	}
+	return false
 }
